@@ -159,7 +159,7 @@ def streams(tier, rng):
     rand = gen_cases(rng, n_rand, {"depth": 3} if big else None)
     adversarial = gen_cases(rng, n_rand // 2, {"hyphen": 0.35, "flag_subs": 0.6, "settings": 0.25, "low_index": 0.2,
                                                "terminators": 0.3, "require_equals": 0.3, "last": 0.3, "tva": 0.25,
-                                               "external": 0.25, "infer": 0.4, "groups": 0.6, "relations": 0.4, "pos_alias": 0.3},
+                                               "external": 0.25, "infer": 0.4, "groups": 0.6, "relations": 0.4, "pos_alias": 0.3, "group_nesting": 0.15},
                             p_mutate=0.6, safe_p=0.3)
     bound = boundary_cases(rng, n_bound, {"hyphen": 0.3, "flag_subs": 0.5, "settings": 0.2, "infer": 0.3})
     ign = gen_cases(rng, n_ign, {"ignore_errors": 1.0, "invalid": 0.0}, p_mutate=0.7, safe_p=0.3)
